@@ -210,7 +210,7 @@ TraceRet ==
        /\ Viol("C05", "recorded", C05_Recorded(C, R))
        /\ Viol("C06", "solution", C06_Solution(C, R))
        /\ Viol("C06", "callback_interpolant", C06_Callback(A))
-       /\ Viol("C07", "restart", A.rsBad = 0)         \* every step's interpolant equals the one a fresh solver builds for that step
+       /\ Viol("C07", "restart", A.rsBad = 0)         \* every step's interpolant equals the one a fresh solver builds for that step (explicit methods); a BDF step taken after `order` steps of equal size reproduces the order+1 accepted states its polynomial is built from
        /\ Viol("C08", "recorded", C08_Recorded(C, R))
        /\ Viol("C08", "direction", C08_Direction(C, R))
        /\ Viol("C09", "recorded", C09_Recorded(C, R))
